@@ -244,6 +244,10 @@ func (e *PreparedStatementsQuery) handleColumnFromSetArg(ctx context.Context, sq
 	if err != nil {
 		return nil, err
 	}
+	if len(rawData) == 0 {
+		// an empty value is left as it is, as in the literals and bound values of other statements
+		return nil, nil
+	}
 
 	encryptedData, err := e.encryptor.EncryptWithClientID(clientID, rawData, columnSetting)
 	if err != nil {
